@@ -131,6 +131,8 @@ pub fn answer_case(case: &Value) -> Value {
         "u16" => answer!(e, int(data) as u16),
         "u32" => answer!(e, int(data) as u32),
         "u64" => answer!(e, int(data) as u64),
+        "i128" => answer!(e, int(data)),
+        "u128" => answer!(e, int(data) as u128),
         "isize" => answer!(e, int(data) as isize),
         "usize" => answer!(e, int(data) as usize),
         "f32" => answer!(e, f32::from_bits(int(data) as u32)),
@@ -186,7 +188,7 @@ fn gen_case(src: &mut Src, st: &mut Stats) -> Value {
     let deep_exprs = ["@", "type(@)", "[0]", "k", "[0].k", "k[0]", "[0][0][0]", "not_null(@)", "length(@)", "to_array(@)[0]", "[@]", "@ == @", "length(to_string(@))", "*", "[]", "[][][]", "k.k.k"];
     let scalar_exprs = ["@", "abs(@)", "to_string(@)", "type(@)", "[@, @]", "@ == `1`", "length(@)", "@ > `0`", "to_number(@)", "not_null(@)", "{a: @}", "!@", "@ || `0`", "ceil(@)", "reverse(@)", "nope(@)", "@[0]", "@.a"];
     let kind = *src.pick(&[
-        "value", "&value", "variable", "&variable", "rcvar", "&rcvar", "string", "&str", "i8", "i16", "i32", "i64", "u8", "u16", "u32", "u64", "isize", "usize", "f32", "f64", "bool", "unit", "struct", "vec", "tuple", "map", "deep-value", "&deep-value",
+        "value", "&value", "variable", "&variable", "rcvar", "&rcvar", "string", "&str", "i8", "i16", "i32", "i64", "u8", "u16", "u32", "u64", "isize", "usize", "f32", "f64", "bool", "unit", "struct", "vec", "tuple", "map", "deep-value", "&deep-value", "i128", "u128",
     ]);
     let doc_kind = matches!(kind, "value" | "&value" | "variable" | "&variable" | "rcvar" | "&rcvar");
     let expr: String = if doc_kind {
@@ -304,6 +306,9 @@ fn gen_case(src: &mut Src, st: &mut Stats) -> Value {
         "u16" => json!(int_in(src, 0, u16::MAX as i128)),
         "u32" => json!(int_in(src, 0, u32::MAX as i128)),
         "u64" | "usize" => json!(int_in(src, 0, u64::MAX as i128)),
+        // (128-bit integers: every build answers alike, whether it accepts them or not)
+        "i128" => json!(int_in(src, i64::MIN as i128 - 2, u64::MAX as i128 + 2)),
+        "u128" => json!(int_in(src, 0, u64::MAX as i128 + 2)),
         "f32" => {
             let mut f = f32::from_bits(src.u32());
             if !f.is_finite() {
